@@ -71,6 +71,7 @@ mutual
       simp [typeOf, hasTy_typeOf v r h.2, h.1]
     | .list _ _, t, h => by cases t <;> simp [checkVal] at h; simp [typeOf, h.1]
     | .map _ _ _, t, h => by cases t <;> simp [checkVal] at h; simp [typeOf, h.1.1, h.1.2]
+    | .bigMap _ _ _, t, h => by cases t <;> simp [checkVal] at h; simp [typeOf, h.1.1, h.1.2]
     | .set _ _, t, h => by cases t <;> simp [checkVal] at h; simp [typeOf, h.1]
     | .lam _ _ _, t, h => by cases t <;> simp [checkVal] at h; simp [typeOf, h.1.1, h.1.2]
     | .contract _ _, t, h => by cases t <;> simp [checkVal] at h; simp [typeOf, h]
@@ -296,14 +297,14 @@ theorem strict_imp_lax :
     (motive_3 := fun vs t => checkVals true vs t = true → checkVals false vs t = true)
     (motive_4 := fun is s => ∀ r, typeSeq true is s = some r → typeSeq false is s = some r)
   all_goals (intros; try (simp_all [typeInstr, checkVal, checkVals, typeSeq]; done))
-  case case25 a' b' body a b ih h =>
+  case case27 a' b' body a b ih h =>
     cases hb : typeInstr true body [a] with
     | none => simp [checkVal, hb] at h
     | some rb => have := ih rb hb; simp only [checkVal, hb, this] at h ⊢; exact h
-  case case38 n body s hn r h => simp [typeInstr, hn] at h
-  case case55 body t s' x ih r h => have := ih _ x; simp only [typeInstr, x, this] at h ⊢; exact h
-  case case59 body t s' x ih r h => have := ih _ x; simp only [typeInstr, x, this] at h ⊢; exact h
-  case case63 body k v s' x ih r h => have := ih _ x; simp only [typeInstr, x, this] at h ⊢; exact h
+  case case40 n body s hn r h => simp [typeInstr, hn] at h
+  case case57 body t s' x ih r h => have := ih _ x; simp only [typeInstr, x, this] at h ⊢; exact h
+  case case61 body t s' x ih r h => have := ih _ x; simp only [typeInstr, x, this] at h ⊢; exact h
+  case case65 body k v s' x ih r h => have := ih _ x; simp only [typeInstr, x, this] at h ⊢; exact h
 
 /-- in either mode, a judgement of the development is in particular a judgement of the Michelson typing rules -/
 theorem typeInstr_lax [Mode] {i : Instr} {s : List Ty} {r : TRes} (h : typeInstr Mode.strict i s = some r) :
